@@ -520,3 +520,70 @@ func derefOf(v ssa.Value) ssa.Value {
 	}
 	return nil
 }
+
+func init() {
+	register(&Rule{
+		Name:    "DEFAULTLIT",
+		Doc:     "thrift.makeDefaultValue accepts every literal kind the IDL grammar allows for a field type (table: an integer literal initialises the integer types AND double AND bool; a double literal double; a string literal string): the clause for parser.ConstType_ConstInt handles DOUBLE and BOOL besides IsInt() — otherwise `double d = 1` / `bool b = 1` silently get no default value (the caller drops the error)",
+		Configs: "NP",
+		Floor:   map[string]int{"N": 1, "P": 1},
+		Run:     runDefaultLit,
+	})
+}
+
+func init() {
+	register(&Rule{
+		Name:     "HEADERKIND",
+		Doc:      "a variable's header is rewritten through `(*rt.GoString)(unsafe.Pointer(&x))` only when x is a string, and through `(*rt.GoSlice)(…)` only when x is a slice: a []byte built through the two-word string header keeps cap 0 with len > 0 — an invalid slice (`b[:n]` panics with `capacity 0`) — and a string built through the slice header reads a third word that is not there",
+		Configs:  "NP",
+		Floor:    map[string]int{"N": 10, "P": 10},
+		Controls: 1,
+		Run:      runHeaderKind,
+	})
+}
+
+func runHeaderKind(rc *RuleCtx) {
+	for _, fn := range rc.W.Funcs {
+		for _, b := range fn.Blocks {
+			for _, ins := range b.Instrs {
+				cv, ok := ins.(*ssa.Convert)
+				if !ok {
+					continue
+				}
+				pt, ok := cv.Type().(*types.Pointer)
+				if !ok {
+					continue
+				}
+				hdr := typeShort(pt.Elem())
+				if hdr != "internal/rt.GoString" && hdr != "internal/rt.GoSlice" {
+					continue
+				}
+				inner, ok := cv.X.(*ssa.Convert)
+				if !ok {
+					continue
+				}
+				src, ok := inner.X.Type().(*types.Pointer)
+				if !ok {
+					continue
+				}
+				var kind string
+				switch u := src.Elem().Underlying().(type) {
+				case *types.Slice:
+					kind = "slice"
+				case *types.Basic:
+					if u.Kind() == types.String {
+						kind = "string"
+					}
+				}
+				if kind == "" {
+					continue
+				}
+				rc.Examined++
+				good := (kind == "string") == (hdr == "internal/rt.GoString")
+				rc.verdict(good, fn, "header of a "+kind+" as "+strings.TrimPrefix(hdr, "internal/"), cv.Pos(), map[bool]string{
+					true:  "the header type matches the variable's kind",
+					false: "a " + kind + " variable is rewritten through the header of the other kind (" + strings.TrimPrefix(hdr, "internal/") + "): a slice keeps cap 0 with a non-zero len (re-slicing panics), a string would read a capacity word it does not have"}[good], false)
+			}
+		}
+	}
+}
